@@ -13,6 +13,9 @@ theories/Model/Context.vos theories/Model/Context.vok theories/Model/Context.req
 theories/Model/ContextOracle.vo theories/Model/ContextOracle.glob theories/Model/ContextOracle.v.beautified theories/Model/ContextOracle.required_vo: theories/Model/ContextOracle.v theories/Model/Context.vo
 theories/Model/ContextOracle.vio: theories/Model/ContextOracle.v theories/Model/Context.vio
 theories/Model/ContextOracle.vos theories/Model/ContextOracle.vok theories/Model/ContextOracle.required_vos: theories/Model/ContextOracle.v theories/Model/Context.vos
+theories/Model/ContextTree.vo theories/Model/ContextTree.glob theories/Model/ContextTree.v.beautified theories/Model/ContextTree.required_vo: theories/Model/ContextTree.v theories/Model/Expr.vo theories/Model/Context.vo
+theories/Model/ContextTree.vio: theories/Model/ContextTree.v theories/Model/Expr.vio theories/Model/Context.vio
+theories/Model/ContextTree.vos theories/Model/ContextTree.vok theories/Model/ContextTree.required_vos: theories/Model/ContextTree.v theories/Model/Expr.vos theories/Model/Context.vos
 theories/Model/EvalImpl.vo theories/Model/EvalImpl.glob theories/Model/EvalImpl.v.beautified theories/Model/EvalImpl.required_vo: theories/Model/EvalImpl.v theories/Spec/Eval.vo
 theories/Model/EvalImpl.vio: theories/Model/EvalImpl.v theories/Spec/Eval.vio
 theories/Model/EvalImpl.vos theories/Model/EvalImpl.vok theories/Model/EvalImpl.required_vos: theories/Model/EvalImpl.v theories/Spec/Eval.vos
@@ -31,6 +34,9 @@ theories/Proofs/ContextOracleProofs.vos theories/Proofs/ContextOracleProofs.vok 
 theories/Proofs/ContextProofs.vo theories/Proofs/ContextProofs.glob theories/Proofs/ContextProofs.v.beautified theories/Proofs/ContextProofs.required_vo: theories/Proofs/ContextProofs.v theories/Model/Context.vo
 theories/Proofs/ContextProofs.vio: theories/Proofs/ContextProofs.v theories/Model/Context.vio
 theories/Proofs/ContextProofs.vos theories/Proofs/ContextProofs.vok theories/Proofs/ContextProofs.required_vos: theories/Proofs/ContextProofs.v theories/Model/Context.vos
+theories/Proofs/ContextTreeProofs.vo theories/Proofs/ContextTreeProofs.glob theories/Proofs/ContextTreeProofs.v.beautified theories/Proofs/ContextTreeProofs.required_vo: theories/Proofs/ContextTreeProofs.v theories/Model/Expr.vo theories/Model/Context.vo theories/Model/ContextTree.vo theories/Proofs/ContextProofs.vo
+theories/Proofs/ContextTreeProofs.vio: theories/Proofs/ContextTreeProofs.v theories/Model/Expr.vio theories/Model/Context.vio theories/Model/ContextTree.vio theories/Proofs/ContextProofs.vio
+theories/Proofs/ContextTreeProofs.vos theories/Proofs/ContextTreeProofs.vok theories/Proofs/ContextTreeProofs.required_vos: theories/Proofs/ContextTreeProofs.v theories/Model/Expr.vos theories/Model/Context.vos theories/Model/ContextTree.vos theories/Proofs/ContextProofs.vos
 theories/Proofs/EvalImplProofs.vo theories/Proofs/EvalImplProofs.glob theories/Proofs/EvalImplProofs.v.beautified theories/Proofs/EvalImplProofs.required_vo: theories/Proofs/EvalImplProofs.v theories/Model/EvalImpl.vo theories/Proofs/ExprLemmas.vo
 theories/Proofs/EvalImplProofs.vio: theories/Proofs/EvalImplProofs.v theories/Model/EvalImpl.vio theories/Proofs/ExprLemmas.vio
 theories/Proofs/EvalImplProofs.vos theories/Proofs/EvalImplProofs.vok theories/Proofs/EvalImplProofs.required_vos: theories/Proofs/EvalImplProofs.v theories/Model/EvalImpl.vos theories/Proofs/ExprLemmas.vos
@@ -43,6 +49,6 @@ theories/Proofs/ExprLemmas.vos theories/Proofs/ExprLemmas.vok theories/Proofs/Ex
 theories/Props/C06.vo theories/Props/C06.glob theories/Props/C06.v.beautified theories/Props/C06.required_vo: theories/Props/C06.v theories/Model/EvalImpl.vo theories/Proofs/EvalProofs.vo theories/Proofs/EvalImplProofs.vo
 theories/Props/C06.vio: theories/Props/C06.v theories/Model/EvalImpl.vio theories/Proofs/EvalProofs.vio theories/Proofs/EvalImplProofs.vio
 theories/Props/C06.vos theories/Props/C06.vok theories/Props/C06.required_vos: theories/Props/C06.v theories/Model/EvalImpl.vos theories/Proofs/EvalProofs.vos theories/Proofs/EvalImplProofs.vos
-theories/Props/C12.vo theories/Props/C12.glob theories/Props/C12.v.beautified theories/Props/C12.required_vo: theories/Props/C12.v theories/Model/Context.vo theories/Model/ContextOracle.vo theories/Proofs/ContextProofs.vo theories/Proofs/ContextOracleProofs.vo theories/Proofs/ContextDenotesProofs.vo
-theories/Props/C12.vio: theories/Props/C12.v theories/Model/Context.vio theories/Model/ContextOracle.vio theories/Proofs/ContextProofs.vio theories/Proofs/ContextOracleProofs.vio theories/Proofs/ContextDenotesProofs.vio
-theories/Props/C12.vos theories/Props/C12.vok theories/Props/C12.required_vos: theories/Props/C12.v theories/Model/Context.vos theories/Model/ContextOracle.vos theories/Proofs/ContextProofs.vos theories/Proofs/ContextOracleProofs.vos theories/Proofs/ContextDenotesProofs.vos
+theories/Props/C12.vo theories/Props/C12.glob theories/Props/C12.v.beautified theories/Props/C12.required_vo: theories/Props/C12.v theories/Model/Expr.vo theories/Model/Context.vo theories/Model/ContextOracle.vo theories/Model/ContextTree.vo theories/Proofs/ContextProofs.vo theories/Proofs/ContextOracleProofs.vo theories/Proofs/ContextDenotesProofs.vo theories/Proofs/ContextTreeProofs.vo
+theories/Props/C12.vio: theories/Props/C12.v theories/Model/Expr.vio theories/Model/Context.vio theories/Model/ContextOracle.vio theories/Model/ContextTree.vio theories/Proofs/ContextProofs.vio theories/Proofs/ContextOracleProofs.vio theories/Proofs/ContextDenotesProofs.vio theories/Proofs/ContextTreeProofs.vio
+theories/Props/C12.vos theories/Props/C12.vok theories/Props/C12.required_vos: theories/Props/C12.v theories/Model/Expr.vos theories/Model/Context.vos theories/Model/ContextOracle.vos theories/Model/ContextTree.vos theories/Proofs/ContextProofs.vos theories/Proofs/ContextOracleProofs.vos theories/Proofs/ContextDenotesProofs.vos theories/Proofs/ContextTreeProofs.vos
